@@ -261,7 +261,7 @@ theorem scanNext_cons (dn : Bool) (c : UInt8) (t : Bytes) (h13 : c ≠ 13) (h10 
         if x < n then .invalidName else
         let key := normalizeKey dn ((c :: t).take n)
         let afterColon := (c :: t).drop (n + 1)
-        let sp := (afterColon.takeWhile (· == 32)).length
+        let sp := (afterColon.takeWhile isOWS).length
         let B1 := afterColon.drop sp
         match indexByte 10 B1 with
         | none => .needMore
@@ -270,7 +270,7 @@ theorem scanNext_cons (dn : Bool) (c : UInt8) (t : Bytes) (h13 : c ≠ 13) (h10 
           let nEnd := n1 + extra
           let region := trimValue (B1.take nEnd)
           let value := if extra > 0 then
-              (((normValAux false region).dropWhile (· == 32)).reverse.dropWhile (· == 32)).reverse else region
+              (((normValAux false region).dropWhile (· == 32)).reverse.dropWhile isOWS).reverse else region
           .kv key value (B1.drop (nEnd + 1)) (n + 1 + sp + nEnd + 1) := by
   unfold scanNext
   split
@@ -291,13 +291,14 @@ theorem noBlankEnds_facts (v : Bytes) (h : noBlankEnds v = true) :
   · intro c hc; rw [hc] at h; simpa using h.1
   · intro c hc; rw [hc] at h; simpa using h.2
 
-theorem trimValue_cr (v : Bytes) (h : ∀ c, v.getLast? = some c → c ≠ 32) : trimValue (v ++ [13]) = v := by
+theorem trimValue_cr (v : Bytes) (h : ∀ c, v.getLast? = some c → c ≠ 32 ∧ c ≠ 9) : trimValue (v ++ [13]) = v := by
   unfold trimValue
   simp only [List.getLast?_append, List.getLast?_singleton, Option.some_or, if_true, List.dropLast_concat]
   rw [dropWhile_id v.reverse (by
     intro c hc
     rw [List.head?_reverse] at hc
-    simpa using h c hc)]
+    have := h c hc
+    simp [isOWS, this.1, this.2])]
   simp
 
 theorem contExtra_of_head (rest : Bytes) (h : ∀ c, rest.head? = some c → c ≠ 32 ∧ c ≠ 9) : contExtra rest = 0 := by
@@ -339,12 +340,12 @@ theorem scanNext_field (dn : Bool) (k v rest : Bytes) (hk : isToken k = true) (h
       32 :: (v ++ 13 :: 10 :: rest) := by
     have e : a :: k' ++ 58 :: 32 :: (v ++ 13 :: 10 :: rest) = (a :: k' ++ [58]) ++ 32 :: (v ++ 13 :: 10 :: rest) := by simp
     rw [e]; exact List.drop_left' (by simp)
-  have htw : List.takeWhile (· == 32) (32 :: (v ++ 13 :: 10 :: rest)) = [32] := by
+  have htw : List.takeWhile isOWS (32 :: (v ++ 13 :: 10 :: rest)) = [32] := by
     cases v with
-    | nil => simp [List.takeWhile]
+    | nil => simp [List.takeWhile, isOWS]
     | cons c t =>
-      have := (hvh c rfl).1
-      simp [List.takeWhile, this]
+      have := hvh c rfl
+      simp [List.takeWhile, isOWS, this.1, this.2]
   have hB1take : List.take (v.length + 1 + 0) (v ++ 13 :: 10 :: rest) = v ++ [13] := by
     have e : v ++ 13 :: 10 :: rest = (v ++ [13]) ++ 10 :: rest := by simp
     rw [e]; exact List.take_left' (by simp)
@@ -356,7 +357,7 @@ theorem scanNext_field (dn : Bool) (k v rest : Bytes) (hk : isToken k = true) (h
   rw [← List.cons_append, hi10, hi58]
   have hlt : ¬ ((a :: k').length + (2 + (v.length + 1)) < (a :: k').length) := by omega
   simp only [hlt, if_false, htake, hdrop, htw, List.length_singleton, List.drop_one, List.tail_cons, hB1,
-    hB1drop', hr, hB1take, hB1drop, Nat.lt_irrefl, trimValue_cr v (fun c hc => (hvl c hc).1)]
+    hB1drop', hr, hB1take, hB1drop, Nat.lt_irrefl, trimValue_cr v (fun c hc => hvl c hc)]
   simp only [List.length_cons]
   congr 1
   omega
